@@ -125,6 +125,14 @@ def run(prop, case, exception_is_violation=False):
         for clause, msg in found:
             viol.append(V(clause, f"{MC.describe_case(case)} :: {msg}"))
         out['counters']['annotated_atoms_checked'] = seen
+    if prop == 'C02' and res['steps'] and case['kind'] == 'coarse_cut' and case.get('truth'):
+        # 'same internal bonds and bond orders' as the fragment DEFINED under the node's name: the bead graph the
+        # generator cut into these fragments is the independent reference (the contract alone compares with what the
+        # library's own fragment reader produced)
+        cg, aa = res['steps'][-1]
+        if not MC.coarse_result_matches(aa, MC.coarse_truth(case['truth'])):
+            viol.append(V('c02.copy_differs_from_definition', f"{MC.describe_case(case)} :: the resolved bead graph (names, bonds, bond orders) is not the graph whose fragments were written: "
+                          f"{sorted((min(a, b), max(a, b), d.get('order')) for a, b, d in aa.edges(data=True))}"))
     if prop == 'C03' and res['steps'] and case['kind'] in ('cut', 'virtual', 'coarse_cut'):
         # these workloads write one dedicated, uniquely labelled pair per unit of base-edge order:
         # 'exactly that many' bonds must exist between the two coarse nodes
